@@ -210,7 +210,7 @@ Inductive value :=
 | VNpBool (b : bool)
 | VNpOther (s : text)                      (* str_, bytes_, datetime64, complex: str(value) *)
 | VNpArray (v : value)                     (* ndarray; v describes value.tolist() *)
-| VNpTimedelta (is_nat linear : bool) (ns : Z).  (* timedelta64: NaT?, unit with a fixed length?, nanoseconds *)
+| VNpTimedelta (is_nat linear : bool) (cnt : Z). (* timedelta64: NaT?, unit with a fixed length?, nanoseconds (months for month/year units) *)
 
 (* a cell: the value and str(value) when it is not the value's own text *)
 Record cell := mkcell { cv : value; cs : option text }.
@@ -237,11 +237,11 @@ Definition DAY_NS : Z := 86400000000000%Z.
 Definition np_map (v : value) : result value :=
   match v with
   | VNpArray x => Ok x
-  | VNpTimedelta is_nat linear ns =>
-      if negb linear then Raise TypeError           (* value / timedelta64(1e9, "ns") *)
-      else if is_nat then Raise ValueError          (* int(nan // 86400) *)
-      else let r := (ns mod DAY_NS)%Z in
-           Ok (VInterval 0 (ns / DAY_NS)%Z (r / 1000000000)%Z (r mod 1000000000)%Z)
+  | VNpTimedelta is_nat linear cnt =>
+      if is_nat then Ok VNone                        (* numpy.isnat(value): rendered as null *)
+      else if negb linear then Ok (VInterval cnt 0 0 0)   (* month / year units: months only *)
+      else let r := (cnt mod DAY_NS)%Z in
+           Ok (VInterval 0 (cnt / DAY_NS)%Z (r / 1000000000)%Z (r mod 1000000000)%Z)
   | VNpInt s => Ok (VInt s)
   | VNpFloat n s => Ok (VFloat n s)
   | VNpBool b => Ok (VBool b)
@@ -326,7 +326,9 @@ Definition py_tail (size : nat) (l : list A) : list A :=
 Definition select_rows (l : list A) (limit : nat) (tt lz : bool) : list A * nat :=
   if limit =? 0 then (l, 0)
   else if negb tt then
-    if lz then (firstn limit l, 0)                 (* islice(table._rows, limit) *)
+    if lz then let t := firstn limit l in          (* islice(table._rows, limit) *)
+               (t, length t - 1)                   (* lazy_length = t.rowcount - 1; -1 on an empty t is 0 here,
+                                                      only lazy_length + 1 is read and str(0), str(1) are equally long *)
     else (firstn limit l, 0)                       (* table.slice(length=limit) *)
   else if (negb lz) && (2 * limit + 1 <=? length l) then
     (firstn limit l ++ py_tail limit l, 0)         (* head + tail *)
